@@ -9,7 +9,7 @@ use proptest::prelude::*;
 use serde_json::Value;
 
 pub fn check_lifetime(h: &History) -> CaseResult {
-    let st = run_monitored(h, Flags { c01: false, c03: false, c13: true, margins: false })?;
+    let st = run_monitored(h, Flags { c01: false, c03: false, c13: true, margins: false, group_batches: false })?;
     let long = st.max_track_len > h.cfg.history && st.max_track_len > h.cfg.vis.max_obs;
     let nontrivial = if h.cfg.kind.is_visual() { long && st.evictions > 0 && st.rejected_features > 0 } else { long && st.wasted_delivered > 0 };
     Ok(CaseOk::new(nontrivial)
